@@ -757,7 +757,7 @@ func (e *c01issEnv) wouldOverlap(rt *c01issRT) bool {
 			}
 		}
 	}
-	if op.Kind == "Load" && rt.spec.Prog == "manage" && !e.holdsLock(rt) {
+	if op.Kind == "Load" && (rt.spec.Prog == "manage" || rt.spec.Prog == "handshake") && !e.holdsLock(rt) {
 		for _, o := range e.threads {
 			if o != rt && o.inSave {
 				return true
@@ -971,7 +971,7 @@ func (e *c01issEnv) stepThread(rt *c01issRT) error {
 				rt.inSave = false
 			}
 		case "Load":
-			if rt.spec.Prog == "manage" && !wasHolding {
+			if (rt.spec.Prog == "manage" || rt.spec.Prog == "handshake") && !wasHolding {
 				if k == 0 && out == 0 {
 					rt.midLoad = true
 				}
